@@ -247,6 +247,12 @@ func (f *fakeComp) Flush() error {
 		_, err = f.w.Write([]byte{0, 0, 0xff, 0xff})
 	case "short":
 		_, err = f.w.Write([]byte{0, 0xff, 0xff})
+	case "suffix1":
+		_, err = f.w.Write([]byte{0xff})
+	case "suffix2":
+		_, err = f.w.Write([]byte{0xff, 0xff})
+	case "suffix3":
+		_, err = f.w.Write([]byte{0, 0xff, 0xff})
 	}
 	return err
 }
